@@ -354,7 +354,9 @@ class Run:
         "C05": ["transfer"], "C15": ["transfer"], "C06": ["transfer"], "C16": ["filename"], "C12": ["enum"],
     }
     # stage 5 (analysis code of the generators), one line per area: area -> properties
-    for _p in ("C05", "C09", "C15"): TRANSLATION_TIES.setdefault(_p, []).append("mapmatch")
+    # (mapmatch costs ~27 s of coqc: C05 carries it in both tiers, C09 and C15 in the thorough tier only)
+    TRANSLATION_TIES.setdefault("C05", []).append("mapmatch")
+    for _p in ("C09", "C15"): TRANSLATION_TIES.setdefault(_p, []).append("mapmatch@thorough")
     for _p in ("C02", "C03", "C11"): TRANSLATION_TIES.setdefault(_p, []).append("ctorshadow")
     for _p in ("C16",): TRANSLATION_TIES.setdefault(_p, []).append("cliselect")
 
@@ -368,6 +370,10 @@ class Run:
             return
         ties = []
         for a in areas:
+            if a.endswith("@thorough"):
+                if not self.thorough():
+                    continue
+                a = a[:-len("@thorough")]
             try:
                 t = translate_tie.translation_tie(self, a)
             except CheckBroken as e:
